@@ -12,7 +12,7 @@
    (asn1.Unmarshal's struct matching, elliptic point validation, the PPK text reader, the
    line readers ParseAuthorizedKey/ParseKnownHosts, 3DES) enter as arguments. *)
 From WI Require Import Lib.Base Lib.Info Lib.Strings.
-From WI Require gen.KeyTables.
+From WI Require gen.KeyTables gen.PgpTables.
 Import gen.KeyTables.
 Open Scope N_scope.
 
@@ -706,3 +706,67 @@ Definition ssh_known_hosts_one (fixed : bool) (o : ssh_oracle) (l : known_hosts_
       | Err e => Err e | Panic s => Panic s
       end
   end.
+
+(* ------------------------------------------------------------------ *)
+(* OpenPGP public key packet: the key facts of gpgPublicKeyAttributes   *)
+(* (internal/file/pgp.go:54); packet/public_key.go:336 parse, :408      *)
+(* parseRSA, :436 parseDSA, parseElGamal; packet/packet.go:540 readMPI. *)
+(* Key ID, fingerprint, identities and dates are C12's.                 *)
+(* ------------------------------------------------------------------ *)
+
+(* readMPI: the declared bit count, the bytes read for it, the rest *)
+Definition pgp_read_mpi (r : bytes) : result (N * bytes * bytes) :=
+  let* (l, r1) := read_full 2 r in
+  let bits := be_to_N l in
+  let* (b, r2) := read_full (N.to_nat ((bits + 7) / 8)) r1 in
+  Ok (bits, b, r2).
+
+(* pubkeyAlgorithmNames[algo]: a Go map lookup, "" when absent *)
+Fixpoint pgp_algo_name_in (t : list (N * bytes)) (a : N) : bytes :=
+  match t with
+  | [] => []
+  | (k, v) :: r => if k =? a then v else pgp_algo_name_in r a
+  end.
+Definition pgp_algo_name : N -> bytes := pgp_algo_name_in gen.PgpTables.pgp_algo_names.
+
+(* PublicKey.BitLength: the bit count declared by the first MPI (n for RSA, p for DSA and ElGamal).
+   exact = false is a variant that reports the number of whole octets read times eight instead *)
+Definition pgp_size (exact : bool) (declared : N) (raw : bytes) : N :=
+  if exact then declared else 8 * N.of_nat (length (
+    (fix strip (b : bytes) : bytes := match b with 0 :: r => strip r | _ => b end) raw)).
+
+Definition pgp_key_facts_gen (exact : bool) (body : bytes) : result (list attr) :=
+  let* (hdr, r) := read_full 6 body in
+  if negb (nth 0 hdr 0 =? 4) then Err "public key version" else
+  let algo := nth 5 hdr 0 in
+  let facts bits raw := Ok [(bs "Algorithm", pgp_algo_name algo); (bs "Size", bits_value (pgp_size exact bits raw))] in
+  if (algo =? 1) || (algo =? 2) || (algo =? 3) then
+    let* (nbits, nraw, r1) := pgp_read_mpi r in
+    let* (_, e, _) := pgp_read_mpi r1 in
+    if Nat.ltb 3 (length e) then Err "large public exponent" else facts nbits nraw
+  else if algo =? 17 then
+    let* (pbits, praw, r1) := pgp_read_mpi r in
+    let* (_, _, r2) := pgp_read_mpi r1 in
+    let* (_, _, r3) := pgp_read_mpi r2 in
+    let* (_, _, _) := pgp_read_mpi r3 in facts pbits praw
+  else if algo =? 16 then
+    let* (pbits, praw, r1) := pgp_read_mpi r in
+    let* (_, _, r2) := pgp_read_mpi r1 in
+    let* (_, _, _) := pgp_read_mpi r2 in facts pbits praw
+  else Err "not an RSA, DSA or ElGamal key".
+Definition pgp_key_facts := pgp_key_facts_gen true.
+
+Definition pgp_public_key (body : bytes) : result info :=
+  let* a := pgp_key_facts body in Ok (Info (bs "GPG/PGP public key") a []).
+
+(* writers (RFC 4880 3.2, 5.5.2): an MPI is laid out like the SSH1 one *)
+Definition pgp_mpi_enc : N -> bytes := ssh1_mpi_enc.
+Definition pgp_rsa_body (created n e : N) : bytes :=
+  [4] ++ N_to_be 4 created ++ [1] ++ pgp_mpi_enc n ++ pgp_mpi_enc e.
+Definition pgp_dsa_body (created p q g y : N) : bytes :=
+  [4] ++ N_to_be 4 created ++ [17] ++ pgp_mpi_enc p ++ pgp_mpi_enc q ++ pgp_mpi_enc g ++ pgp_mpi_enc y.
+
+(* der.go:66 getCertificateInfo: the "Public key" child is pkixPublicKeyAttributes of the
+   certificate's RawSubjectPublicKeyInfo, whatever crypto/x509 made of the key *)
+Definition certificate_public_key (alg : list N) (dsa_p rsa_n : option bytes) (ec : result ecparams) : result info :=
+  with_desc "Public key" (pkix_attrs alg dsa_p rsa_n ec).
